@@ -158,6 +158,10 @@ pub struct Scenario {
     pub sample_ram: bool,
     /// Alloc.tla replay: refcount pattern imposed on the built image (clusters
     /// listed are given refcount 1, all others 0) and the allocator's hint
+    /// schedule sweep: run the scenario under this many further schedule
+    /// seeds and keep the first run that hangs or panics (else the base run)
+    #[serde(default)]
+    pub sched_sweep: usize,
     #[serde(default)]
     pub rc_pattern: Option<RcPattern>,
     /// the allocator's free hint (host cluster index) is put here after
